@@ -427,6 +427,9 @@ def gen_history(rng, prop, tier="quick"):
                                   ("zeros", "small", "preset")))
     cfg["passive"] = rng.random() < 0.5        # cheap get()/presets snapshot after every op
     cfg["start_default_call"] = rng.random() < 0.25
+    # the interpreter's warnings configuration is part of the environment: 'error' turns any
+    # warnings.warn() inside the library into an exception raised at that point (python -W error)
+    cfg["warn_mode"] = rng.choice(("ignore", "ignore", "ignore", "error"))
     off = []
     for k in sorted(prof):
         if k in ("decode", "encode", "set_table", "set_preset"):
